@@ -145,7 +145,7 @@ def uf(name, *sorts):
 
 def power(a, b):
     bv = intval(b) if b.sort() == I else None
-    if bv is not None and 0 <= bv <= 4:
+    if bv is not None and 0 <= bv <= 12:
         if bv == 0:
             return z3.IntVal(1) if a.sort() == I else z3.RealVal(1)
         r = a
